@@ -7,7 +7,7 @@ from vcheck import DiffProperty, ASAN_LEAK_ENV, build_harness, build_model, run_
 MAX = "ffffffffffffffff"
 MAX1 = "fffffffffffffffe"
 ARITY = {"new": 2, "mbuf": 2, "addref": 2, "unref": 1, "clone": 2, "conv": 2, "rinit": 3, "rfini": 2, "rcopy": 0,
-         "aclone": 2, "aclear": 1, "detach": 1, "setin": 2, "defer": 2, "force": 2, "unforce": 0,
+         "aclone": 2, "aclear": 1, "detach": 1, "detachf": 1, "setin": 2, "defer": 2, "force": 2, "unforce": 0,
          "xnew": 1, "xassign": 2, "xcopy": 2, "xmove": 2, "xdetach": 2, "xset": 2, "xdrop": 1,
          "set": 1, "raise": 0, "lower": 0}
 MKINDS = ["hcnt", "huni", "gen", "cfg", "top", "reply", "raw", "stream"]      # created by "new" in a metatype slot
@@ -222,7 +222,7 @@ class C15(DiffProperty):
                     cs.append(ccase(mk(kind, 0) + list(seq)))
         for kind in BKINDS:
             a = ["addref 6 7", "addref 7 8", "unref 6", "unref 7", "aclone 6 7", "aclone 7 6", "aclone 8 6", "aclone 7 7",
-                 "aclear 6", "aclear 7", "rinit 0 6 8", "rfini 0 8", "detach 6", "detach 7", "mbuf 6 0", "clone 0 1", "unref 0",
+                 "aclear 6", "aclear 7", "rinit 0 6 8", "rfini 0 8", "detach 6", "detach 7", "detachf 6", "detachf 7", "mbuf 6 0", "clone 0 1", "unref 0",
                  "force 6 " + MAX, "force 6 " + MAX1, "unforce"]
             for n in range(1, depth + 1):
                 for seq in itertools.product(a, repeat=n):
@@ -241,7 +241,7 @@ class C15(DiffProperty):
         for kind in BKINDS:
             for v in ("1", "2", MAX1, MAX):
                 for share in (["addref 6 7", "addref 6 8"], ["aclone 6 7", "aclone 6 8"], ["rinit 0 6 7", "rinit 0 6 8"],
-                              ["mbuf 6 0", "mbuf 6 1", "clone 0 2"], ["detach 6"], ["new raw 0", "setin 0 6", "new raw 1", "setin 1 6"]):
+                              ["mbuf 6 0", "mbuf 6 1", "clone 0 2"], ["detach 6"], ["detachf 6"], ["addref 6 7", "detachf 7", "detachf 6"], ["new raw 0", "setin 0 6", "new raw 1", "setin 1 6"]):
                     cs.append(ccase(["new %s 6" % kind, "force 6 " + v] + share + ["aclear 6", "unforce"]))
         for v in ("1", "2", MAX1, MAX):
             for share in (["xassign 12 13", "xassign 12 14"], ["xcopy 12 13", "xcopy 13 14"], ["xmove 12 13", "xassign 13 12"],
@@ -339,7 +339,7 @@ class C15(DiffProperty):
                         filled.pop(d, None)
             elif r < 0.89 and as_:
                 a = rng.choice(as_)
-                ops.append(rng.choice(["detach %d" % a, "aclear %d" % a]))
+                ops.append(rng.choice(["detach %d" % a, "detachf %d" % a, "aclear %d" % a]))
                 if ops[-1].startswith("aclear"):
                     del filled[a]
             elif r < 0.92 and ms:
